@@ -425,7 +425,11 @@ def cases(draw, forced=None):
     roles += ["d%d" % i for i in range(ndata)] + ["s%d" % i for i in range(nstreams)]
     # object streams
     compress = {}
-    nobjstm = draw(st.integers(0, 2)) if xref == "stream" else 0
+    # a cross-reference stream without a third field: all generations 0 and no object streams
+    narrow = xref == "stream" and draw(st.integers(0, 3)) == 0
+    if narrow:
+        classes.append("xref-stream-W-third-0")
+    nobjstm = draw(st.integers(0, 2)) if xref == "stream" and not narrow else 0
     compressible = ["cat", "pages", "page", "font", "info"] + ["d%d" % i for i in range(ndata)]
     for k in range(nobjstm):
         mem = [r for r in compressible if r not in compress and draw(st.booleans())]
@@ -462,7 +466,7 @@ def cases(draw, forced=None):
             n = nxt
         used.add(n)
         g = 0
-        if r not in compress and not r.startswith("os") and r != "xrefstm" and draw(st.integers(0, 2)) == 0:
+        if r not in compress and not r.startswith("os") and r != "xrefstm" and not narrow and draw(st.integers(0, 2)) == 0:
             g = draw(st.one_of(st.sampled_from(BIG_GENS), st.integers(1, 65535)))
         num[r] = (n, g)
     if any(n > 0xFFFF for n, g in num.values()):
@@ -552,7 +556,7 @@ def cases(draw, forced=None):
     if cfm == "Identity":
         classes.append("identity-explicit" if handler.identity_explicit else "identity-by-default")
     common = dict(objstms=objstms, xref=xref, xref_objnum=num["xrefstm"][0] if xref == "stream" else None,
-                  xref_compress=draw(st.booleans()),
+                  xref_compress=draw(st.booleans()), xref_narrow=narrow,
                   length_refs={num[r][0]: num[lr][0] for r, lr in length_ref.items()})
     info_e, info_p = {}, {}
     pdf = C.build_file(nobjs, gens, trailer, handler=handler, encrypt_objnum=num["encrypt"][0] if enc_indirect else None,
